@@ -233,7 +233,8 @@ def run(ctx):
         ctx.violation({"kind": "generator unhealthy: more than 30% of the HAVING statements fail", "errors": errs})
     ctx.assumptions += ["the model is fed with the token list the generator wrote; the tokens collected by the havingExpression hook are "
                         "compared with it separately"]
-
+    ctx.assumptions += ["_partial domain of C13_compare_partial: int64 >= 0 on both sides; text / extracted ids without bytes <= 0x22; outside it a "
+                        "comparison that differs from the comparison of the values must be accepted by the classifier of an OPEN finding"]
 
 def search(ctx, broken):
     try:
